@@ -636,3 +636,41 @@ class SentenceNode(Node): pass
 class SentenceWorldNode(SentenceNode, WorldNode): pass
 class SentenceDesignationNode(SentenceNode, DesignationNode): pass
 class SentenceDesignationWorldNode(SentenceDesignationNode, SentenceWorldNode): pass
+# ----------------------------------------------------------------------------
+# Verification hook (guarded, add-only).  With PYTABLEAUX_VERIF=1 in the
+# environment, nodes and branches hash by a per-process creation counter mixed
+# with PYTABLEAUX_VERIF_ORDER=<int> instead of by id(), so that the iteration
+# order of hash-based sets of nodes/branches (tie-breaking among equally ranked
+# rule targets) is reproducible in a fresh process and can be enumerated as a
+# schedule.  With the guard off nothing here is executed and hashing stays
+# identity-based.
+# ----------------------------------------------------------------------------
+import os as _verif_os
+if _verif_os.environ.get('PYTABLEAUX_VERIF') == '1':
+    def _verif_install_hash_order():
+        import itertools
+        try:
+            order = int(_verif_os.environ.get('PYTABLEAUX_VERIF_ORDER', '0') or 0)
+        except ValueError:
+            order = 0
+        counter = itertools.count(1)
+        # id -> (sequence number, object).  The object is kept alive so that
+        # its id is never reused while it is in the table (verification runs
+        # are short-lived processes).
+        table = {}
+        mult = 2 * order + 1            # odd multiplier: a bijection mod 2**61-1 for small counters
+        mod = (1 << 61) - 1
+        def _seq_hash(self):
+            try:
+                seq = table[id(self)][0]
+            except KeyError:
+                seq = next(counter)
+                table[id(self)] = (seq, self)
+            if order == 0:
+                return seq
+            return (seq * mult * 0x9E3779B97F4A7C15 + order) % mod
+        Node.__hash__ = _seq_hash
+        Branch.__hash__ = _seq_hash
+    _verif_install_hash_order()
+    del _verif_install_hash_order
+del _verif_os
